@@ -33,6 +33,8 @@ enum Kt {
     I64,
     Text,
     LText,
+    /// text keys of very different lengths (every fifth key carries 350 trailing blanks): dividers of mixed sizes
+    MText,
     Comp,
 }
 
@@ -42,6 +44,7 @@ fn parse_kt(s: &str) -> Option<Kt> {
         "i64" => Kt::I64,
         "text" => Kt::Text,
         "ltext" => Kt::LText,
+        "mtext" => Kt::MText,
         "comp" => Kt::Comp,
         _ => return None,
     })
@@ -51,7 +54,7 @@ fn kind_of(kt: Kt) -> KeyKind {
     match kt {
         Kt::U64 => KeyKind::U64,
         Kt::I64 => KeyKind::I64,
-        Kt::Text | Kt::LText => KeyKind::Text,
+        Kt::Text | Kt::LText | Kt::MText => KeyKind::Text,
         Kt::Comp => KeyKind::Comp,
     }
 }
@@ -93,6 +96,13 @@ fn realise(kt: Kt, page_size: usize, k: u64) -> VKey {
             v.extend(bits(k));
             VKey::Text(v)
         }
+        Kt::MText => {
+            let mut v = bits(k);
+            if k % 5 == 0 {
+                v.extend(std::iter::repeat_n(b' ', 350));
+            }
+            VKey::Text(v)
+        }
         Kt::Comp => VKey::Comp((k / 7) as i64 - 30, bits(k % 7)),
     }
 }
@@ -108,6 +118,10 @@ fn index_of(kt: Kt, page_size: usize, key: &VKey) -> Option<u64> {
                 return None;
             }
             unbits(&v[n..])?
+        }
+        (Kt::MText, VKey::Text(v)) => {
+            let n = v.iter().rev().take_while(|b| **b == b' ').count();
+            unbits(&v[..v.len() - n])?
         }
         (Kt::Comp, VKey::Comp(a, v)) => {
             let r = unbits(v)?;
@@ -680,7 +694,7 @@ fn parse_sizes(s: &str) -> Option<Vec<usize>> {
 
 impl Engine for BtreeEngine {
     fn timeout_ms(&self) -> u64 {
-        120_000
+        45_000
     }
 
     fn exec(&mut self, line: &str) -> String {
@@ -1007,15 +1021,14 @@ mod generator {
         Case { line, tags }
     }
 
-    /// Known-finding features of a plan (DESIGN §4.2: a quick-tier case carries at most one).
-    /// `bigcell`: some cell may be large against the page (payload profile mid/big/huge/mix, or keys that spill into
-    /// overflow pages). Dividers in interior pages are full copies of leaf cells, so such trees run into
-    /// KF-C10-divider-full-copy (StorageFull in a parent, stale overflow-chain alias, interior pages without cells).
+    /// Size class of a plan (no known finding is attached to either since 5ae85bc; the tags only feed the histogram):
+    /// `bigcell` = some cell may be large against the page (payload profile mid/big/huge/mix, or keys that spill into
+    /// overflow pages or differ widely in size), `smallcell` = every cell stays under ~1/14 of the page.
     pub fn features(pl: &Plan) -> Vec<&'static str> {
-        if matches!(pl.profile, Profile::Mid | Profile::Big | Profile::Huge | Profile::Mix) || pl.kt == "ltext" {
+        if matches!(pl.profile, Profile::Mid | Profile::Big | Profile::Huge | Profile::Mix) || pl.kt == "ltext" || pl.kt == "mtext" {
             vec!["bigcell"]
         } else {
-            vec!["clean"]
+            vec!["smallcell"]
         }
     }
 
@@ -1027,11 +1040,11 @@ mod generator {
         };
         let clean = [Profile::Tiny, Profile::Small, Profile::Small];
         let risky = [Profile::Mid, Profile::Big, Profile::Huge, Profile::Mix];
-        let kts = ["u64", "u64", "i64", "text", "comp"];
+        let kts = ["u64", "u64", "i64", "text", "comp", "mtext"];
         for i in 0..nseq {
-            // patterns come round; 3 of 10 sequences are drawn from the known-finding region (large cells)
+            // patterns come round; 4 of 10 sequences use large cells (overflow chains, few cells per page)
             let pattern = PATTERNS[i % PATTERNS.len()];
-            let in_region = (i / PATTERNS.len() + i) % 10 < 3;
+            let in_region = (i / PATTERNS.len() + i) % 10 < 4;
             let profile = if in_region { risky[(i / 3) % risky.len()] } else { clean[(i / 2) % clean.len()] };
             let ps = match rng.below(12) {
                 0 | 1 => 8192,
@@ -1062,26 +1075,28 @@ mod generator {
             };
             out.push(build(rng, &pl));
         }
-        // deep trees in the clean region: height >= 4 needs ~1500 cells of ~1/11 page, so that interior pages are
-        // rebalanced against interior siblings (the dividers of a level come from the level above, not from the children)
-        let ndeep = if tier == Tier::Quick { 3 } else { 16 };
+        // deep trees: interior pages are only rebalanced against interior siblings (dividers moving between levels) from
+        // height 4 on. Dividers are small cells now, so that takes long keys (dividers at their size budget, one overflow
+        // page each) and few siblings per side; one plan in four keeps short keys and ~2000 rows of ~180 bytes.
+        let ndeep = if tier == Tier::Quick { 4 } else { 20 };
         for i in 0..ndeep {
             let pattern = ["asc", "random", "desc", "churn", "delall", "zigzag"][(i + rng.below(6) as usize) % 6];
+            let long_keys = i % 4 != 3;
             let pl = Plan {
                 ps: 4096,
-                mk: 3 + rng.below(3) as usize,
-                sib: 1 + rng.below(4) as usize,
-                kt: *rng.pick(&["u64", "i64", "comp"]),
-                profile: Profile::SmallHi,
+                mk: 3 + rng.below(2) as usize,
+                sib: if long_keys { 1 + rng.below(2) as usize } else { 1 + rng.below(4) as usize },
+                kt: if long_keys { "ltext" } else { *rng.pick(&["u64", "i64", "comp", "mtext"]) },
+                profile: if long_keys { Profile::Tiny } else { Profile::SmallHi },
                 pattern,
-                nops: 1700 + rng.below(500) as usize,
+                nops: if long_keys { 900 + rng.below(400) as usize } else { 1700 + rng.below(500) as usize },
             };
             let mut c = build(rng, &pl);
             c.tags.push("deep".into());
             out.push(c);
         }
         // comparator tie: the realisation of key indices is monotone under the code's comparator
-        for kt in ["u64", "i64", "text", "ltext", "comp"] {
+        for kt in ["u64", "i64", "text", "ltext", "mtext", "comp"] {
             for _ in 0..40 {
                 let a = rng.below(2000);
                 let b = if rng.chance(1, 5) { a } else { rng.below(2000) };
